@@ -19,7 +19,7 @@ def run(chk):
                 "max_peak_live_bytes": max([int(s.get("max_peak_live_bytes", 0)) for s in by_prof.values()] or [0]),
                 "max_call_ms": max([int(s.get("max_call_ms", 0)) for s in by_prof.values()] or [0])}
     cu.simple_check(
-        chk, "C04", "c04", ["release", "debug"], kinds=[],
+        chk, "C04", "c04", ["release", "debug"], kinds=["dec_subset"],
         rule="one evaluation = one entry point run on one input; inputs are distinct byte strings (mutations, truncations, random), non-trivial = every run (each reaches at least the tag / sync test; the outcome distribution is in searcher.outcomes)",
         assumptions=[
             "the memory half of the property is measured (counting allocator), not proved; the bound used is 64 MiB + 64 x input length",
